@@ -746,4 +746,4 @@ def run_program(program, ctx):
 
 
 def cleanup():
-    pass
+    _cache.pop('models', None)      # jitted closures must not survive a run (see solver_sim.cleanup)
